@@ -321,7 +321,8 @@ class AnsiString:
             topmost - When False, all other existing settings in this range will take precedent
         '''
         start = self._slice_val_to_idx(start, 0)
-        end = self._slice_val_to_idx(end, len(self._s))
+        # Limit to the end of the string so that no marker is ever placed beyond it
+        end = min(self._slice_val_to_idx(end, len(self._s)), len(self._s))
 
         if not settings or start >= len(self._s) or end <= start:
             # Ignore - nothing to apply
@@ -368,7 +369,8 @@ class AnsiString:
             end - The string index where the setting(s) should be removed
         '''
         start = self._slice_val_to_idx(start, 0)
-        end = self._slice_val_to_idx(end, len(self._s))
+        # Limit to the end of the string so that no marker is ever placed beyond it
+        end = min(self._slice_val_to_idx(end, len(self._s)), len(self._s))
 
         if (settings is not None and not settings) or start >= len(self._s) or end <= start:
             # Ignore - nothing to apply
